@@ -286,6 +286,17 @@ func Normalize(dir string, overlay map[string][]byte, goarch string, baseline ma
 						continue
 					}
 					if obj, ok := pk.TypesInfo.Defs[fd.Name].(*types.Func); ok {
+						// a helper that calls itself cannot be inlined away: it stays a function
+						selfRec := false
+						ast.Inspect(fd.Body, func(n ast.Node) bool {
+							if id, isID := n.(*ast.Ident); isID && pk.TypesInfo.Uses[id] == types.Object(obj) {
+								selfRec = true
+							}
+							return true
+						})
+						if selfRec {
+							continue
+						}
 						cands[obj] = &inlineCand{decl: fd, obj: obj, pk: pk, file: f}
 					}
 				}
@@ -368,12 +379,32 @@ func Normalize(dir string, overlay map[string][]byte, goarch string, baseline ma
 							}
 							call, neg := callOfStmt(st)
 							_ = neg
+							nested := false
+							if rs, isRet := st.(*ast.ReturnStmt); isRet && call == nil && len(rs.Results) > 1 {
+								// `return helper(x), nil`: a single-valued candidate call among otherwise simple results
+								for _, e := range rs.Results {
+									if ic, ok := e.(*ast.CallExpr); ok {
+										if cands[calleeFunc(pk.TypesInfo, ic)] != nil && call == nil {
+											call, nested = ic, true
+											continue
+										}
+										call = nil
+										break
+									}
+									if !simpleExpr(e) {
+										call = nil
+										break
+									}
+								}
+								if call == nil {
+									nested = false
+								}
+							}
 							if call == nil {
 								continue
 							}
 							callee := calleeFunc(pk.TypesInfo, call)
 							c := cands[callee]
-							nested := false
 							if c == nil {
 								// one level of nesting: a candidate call that is a direct argument of the statement's
 								// call, with only side-effect free arguments before it
